@@ -302,6 +302,9 @@ def run(ctx):
     ctx.exhaustive("small_worlds", small_worlds(), body,
                    "every multiset of <= 3 boxes from 24 lattice boxes on {0,1,2}^2 x 48 lattice queries")
     ctx.given("generated", layouts(), body, quick=2500, thorough=300000)
+    if ctx.thorough and ctx.shard == 0:
+        from pbt.fuzz import driver
+        driver.run_stage(ctx, "c14_layouts", runs=15000, max_len=4096)
 
 
 def replay(ctx, part, case):
